@@ -26,6 +26,25 @@ def has_allowed_list(cls_name, attr):
     return attr in cls.list_values() or attr in cls.conditional_list_values()
 
 
+def value_owned_elsewhere(spec, name, attr, unit):
+    """(object, attribute) holding a quantity of the same dimension: preferably the same attribute of another
+    object of the same class, else any other one."""
+    from efootprint.constants.units import u
+    dim = u.Quantity(1.0, unit).dimensionality
+    cls_name = spec["objs"][name]["cls"]
+    same, other = [], []
+    for n in spec["order"]:
+        for a, v in spec["objs"][n]["attrs"].items():
+            if v is None or v[0] != "q" or (n, a) == (name, attr):
+                continue
+            if u.Quantity(1.0, v[2]).dimensionality != dim:
+                continue
+            if a == "fixed_nb_of_instances" or (v[1] < 0) != False:
+                continue
+            (same if (a == attr and spec["objs"][n]["cls"] == cls_name) else other).append((n, a))
+    return (same or other or [None])[0]
+
+
 def invalid_values(spec, name, attr):
     """[(fault kind, bad value, strong?)] for the constructor parameter `attr` of object `name`."""
     o = spec["objs"][name]
@@ -46,6 +65,9 @@ def invalid_values(spec, name, attr):
         out.append(("wrong_type_hourly", hourly, STRONG))
         if kind == "q":
             out.append(("none_for_required_quantity", ["none"], WEAK))
+        owner = value_owned_elsewhere(spec, name, attr, unit)
+        if owner:
+            out.append(("value_owned_by_another_attribute", ["owned", owner[0], owner[1]], WEAK))
         if attr == "fixed_nb_of_instances" and cls_name in S.SERVER_CLASSES and o["attrs"]["server_type"][1] != "on-premise":
             out.append(("not_allowed_for_current_server_type", ["q", 7.0, "dimensionless"], STRONG))
     elif kind == "h":
